@@ -1,5 +1,129 @@
 import Driver.Util
+import KavaVerif.Model.Precisebank
+/-!
+  C03 driver. One self-contained case per line: the implementation's observed pre-state, the
+  operation, the implementation's result class and observed post-state.  The handler
+  (1) runs the Lean model on the observed pre-state and compares (MISMATCH), and
+  (2) evaluates the property's predicates on the implementation's own observation (PREDFAIL),
+      independently of the model.
+
+  fields: kind R bal locked frac rem supply blocked a b flag u x "=>" result bal' frac' rem' supply'
+    kind ∈ send | m2a | a2m | mint | burn ;  a = sender / module ; b = recipient (unused for mint/burn)
+    flag = has the minter/burner permission (mint/burn)
+-/
 namespace Drv.C03
-/-- handlers of property C03: (command name, handler) -/
-def handlers : List (String × Handler) := []
+open KV KV.PB
+
+def fn (l : List Int) : Addr → Int := fun a => l.getD a 0
+
+structure Obs where
+  bal : List Int
+  frac : List Int
+  rem : Int
+  supply : Int
+
+def stOf (bal locked frac : List Int) (rem supply : Int) : St :=
+  { bal := fn bal, locked := fn locked, frac := fn frac, rem := rem, supply := supply }
+
+def sumL (l : List Int) : Int := l.foldl (· + ·) 0
+
+def invPred (R : Nat) (o : Obs) : Option String :=
+  if o.frac.any (fun f => f < 0 || f ≥ C) then some "frac-out-of-range"
+  else if o.rem < 0 || o.rem ≥ C then some "remainder-out-of-range"
+  else if o.bal.getD R 0 * C != sumL o.frac + o.rem then some "reserve-not-backing"
+  else none
+
+def extL (bal frac : List Int) (a : Nat) : Int := bal.getD a 0 * C + frac.getD a 0
+
+def idxs (n : Nat) : List Nat := List.range n
+
+/-- frame: every account other than the listed ones (and the reserve's hidden ukava) is unchanged -/
+def frameOk (R : Nat) (pre post : Obs) (touched : List Nat) : Bool :=
+  (idxs pre.bal.length).all fun a =>
+    touched.contains a ||
+      ((a == R || pre.bal.getD a 0 == post.bal.getD a 0) && pre.frac.getD a 0 == post.frac.getD a 0)
+
+def run (kind : String) (R : Nat) (blocked : List Int) (s : St) (a b : Nat) (flag : Bool) (u x : Int) : Res :=
+  match kind with
+  | "send" => send R s a b u x
+  | "m2a" => sendModuleToAccount R (fun i => blocked.getD i 0 == 1) s a b u x
+  | "a2m" => sendAccountToModule R s a b u x
+  | "mint" => mint R s a flag u x
+  | "burn" => burn R s a flag u x
+  | _ => .err
+
+def handle : Handler
+  | [kind, R, bal, locked, frac, rem, supply, blocked, a, b, flag, u, x, _, result, bal', frac', rem', supply'] =>
+    match nat? R, ints? bal, ints? locked, ints? frac, int? rem, int? supply, ints? blocked,
+          nat? a, nat? b, bool? flag, int? u, int? x with
+    | some R, some bal, some locked, some frac, some rem, some supply, some blocked,
+      some a, some b, some flag, some u, some x =>
+      let s := stOf bal locked frac rem supply
+      let pre : Obs := ⟨bal, frac, rem, supply⟩
+      let n := bal.length
+      let res := run kind R blocked s a b flag u x
+      let modelCls := match res with | .ok _ => "ok" | .err => "err" | .panic => "panic"
+      if modelCls != result then mismatch "result" modelCls result
+      else
+      match result with
+      | "ok" =>
+        match ints? bal', ints? frac', int? rem', int? supply' with
+        | some bal', some frac', some rem', some supply' =>
+          let post : Obs := ⟨bal', frac', rem', supply'⟩
+          -- (1) model vs implementation
+          let cmp := match res with
+            | .ok s' =>
+              let mb := (idxs n).map s'.bal
+              let mf := (idxs n).map s'.frac
+              allOk [expectEq "bal" (showInts mb) (showInts bal'), expectEq "frac" (showInts mf) (showInts frac'),
+                     expectEq "rem" (toString s'.rem) (toString rem'),
+                     expectEq "supply" (toString s'.supply) (toString supply')]
+            | _ => "ok"
+          if cmp != "ok" then cmp else
+          -- (2) property predicates on the implementation's own observation
+          match invPred R post with
+          | some why => predfail "C03_inv" why
+          | none =>
+            let amt := u * C + x
+            if kind == "send" || kind == "m2a" || kind == "a2m" then
+              if (a == R || b == R) && amt > 0 then predfail "C03_reserve_party" "accepted"
+              else if a == b then
+                if bal' == bal && frac' == frac && rem' == rem && supply' == supply then "ok"
+                else predfail "C03_send_self_noop" "state-changed"
+              else if extL bal' frac' a != extL bal frac a - amt then predfail "C03_send_exact" "sender"
+              else if extL bal' frac' b != extL bal frac b + amt then predfail "C03_send_exact" "recipient"
+              else if rem' != rem then predfail "C03_send_exact" "remainder-changed"
+              else if supply' != supply then predfail "C03_send_exact" "supply-changed"
+              else if !frameOk R pre post [a, b] then predfail "C03_send_exact" "frame"
+              else if kind == "m2a" && blocked.getD b 0 == 1 then predfail "C03_guards" "blocked-recipient-accepted"
+              else "ok"
+            else if kind == "mint" then
+              if extL bal' frac' a != extL bal frac a + amt then predfail "C03_mint_exact" "target"
+              else if supply' * C - rem' != supply * C - rem + amt then predfail "C03_mint_exact" "circulation"
+              else if !frameOk R pre post [a] then predfail "C03_mint_exact" "frame"
+              else "ok"
+            else if kind == "burn" then
+              if extL bal' frac' a != extL bal frac a - amt then predfail "C03_burn_exact" "target"
+              else if supply' * C - rem' != supply * C - rem - amt then predfail "C03_burn_exact" "circulation"
+              else if !frameOk R pre post [a] then predfail "C03_burn_exact" "frame"
+              else "ok"
+            else badInput "kind"
+        | _, _, _, _ => badInput "post"
+      | "err" =>
+        -- the operation must fail exactly when bank rules require it
+        if (kind == "send" || kind == "m2a" || kind == "a2m") && a != R && b != R
+            && !(kind == "m2a" && blocked.getD b 0 == 1) then
+          let spInt := if bal.getD a 0 < locked.getD a 0 then 0 else bal.getD a 0 - locked.getD a 0
+          if u * C + x ≤ spInt * C + frac.getD a 0 && u ≤ spInt then
+            predfail "C03_fails_iff" "refused-with-sufficient-funds"
+          else "ok"
+        else "ok"
+      | "panic" =>
+        if (kind == "mint" || kind == "burn") && (a == R || !flag) then "ok"
+        else predfail "C03_no_panic" kind
+      | _ => badInput "result"
+    | _, _, _, _, _, _, _, _, _, _, _, _ => badInput "parse"
+  | _ => badInput "arity"
+
+def handlers : List (String × Handler) := [("c03.op", handle)]
 end Drv.C03
